@@ -30,7 +30,7 @@ def sh(cmd, cwd=None, env=None, timeout=3600):
 
 
 def main():
-    raw = Path(sys.argv[1])
+    raw = Path(sys.argv[1]).resolve()
     pid = sys.argv[2]
     n = sys.argv[3]
     skip_suite = "--skip-suite" in sys.argv
@@ -98,14 +98,14 @@ def main():
     if ok:
         dest.mkdir(parents=True, exist_ok=True)
         for f in ("patch.diff", "demo.py", "notes.md"):
-            if (raw / f).exists():
+            if (raw / f).exists() and (raw / f).resolve() != (dest / f).resolve():
                 shutil.copy(raw / f, dest / f)
         old = {}
         if (dest / "meta.json").exists():
             old = json.loads((dest / "meta.json").read_text())
-        for k in ("needs", "breaks"):
-            if k in old:
-                meta[k] = old[k]
+        for k, v in old.items():
+            if k not in meta:  # hand-written fields (needs, breaks, checks, round, notes ...) stay
+                meta[k] = v
         (dest / "meta.json").write_text(json.dumps(meta, indent=1) + "\n")
     print(json.dumps(meta, indent=1))
     return 0
